@@ -110,6 +110,47 @@ def check(ctx, comp, cfg, op, rng, name='', positive=False, small=False):
             why = None
         if why:
             ctx.violation(comp, cfg, why, name=name, errors=['%.1e' % e for e in errs])
+        if not op.is_linear and not util.is_field(op.domain) and not comp.startswith('tree:'):
+            # (not for the random expression trees: constants that cancel inside a tree, ((f + 1) * 3) - 1, hide the magnitude the
+            # rounding noise has to be measured against)
+            # base points of other magnitudes: point and direction scaled by 1e-9 / 1e-17 (the difference steps scale with them).
+            # An absolute threshold or clip inside a derivative (|x| < eps treated as 0) shows only there; where the values are
+            # dominated by O(1) constants the quotient drowns in the measured rounding noise and nothing is decided.
+            for scl in (1e-9, 1e-17):
+                ctx.ev('scaled-base-point')
+                try:
+                    xs_, ds_ = scl * x, scl * d
+                    with np.errstate(all='ignore'):
+                        Dds = op.derivative(xs_)(ds_)
+                        vD = util.to_cvec(op.range, Dds)
+                    if not np.all(np.isfinite(vD)):
+                        ctx.skip('derivative not finite at the scaled base point')
+                        continue
+                    errs_s = fd.fd_errors(op, op.range, xs_, ds_, Dds, tiny=1e-12 * scl)
+                    if fd.verdict(errs_s) and fd.quotient_sequence_converged(op.range) and fd.resolvable(op.range):
+                        ctx.violation(comp, cfg, 'fd-mismatch-at-scaled-base-point', name=name, scale=scl, errors=['%.1e' % e for e in errs_s])
+                        break
+                except (odl.OpNotImplementedError, NotImplementedError):
+                    break
+                except Exception:
+                    break
+        if not op.is_linear:
+            # a derivative object stays what it is: taking the derivative at another point, or evaluating the operator (also in
+            # place), must not change D(x)(d) of a derivative taken earlier (temporaries shared between calls)
+            ctx.ev('point-history')
+            try:
+                x_other = away_from_kinks(op.domain, rng, positive, 0.3, 0.8 if small else 1.5) if not util.is_field(op.domain) else x * 0.7
+                D_other = op.derivative(x_other)
+                D_other(d)
+                if not util.is_field(op.range):
+                    op(x_other, out=op.range.element())
+                else:
+                    op(x_other)
+                again = util.to_cvec(op.range, D(d))
+                if not np.allclose(again, vDd, rtol=1e-12, atol=1e-12 * max(1.0, float(np.abs(vDd).max()) if vDd.size else 1.0)):
+                    ctx.violation(comp, cfg, 'earlier-derivative-changed-by-later-calls', name=name, maxdiff=float(np.abs(again - vDd).max()))
+            except (odl.OpNotImplementedError, NotImplementedError):
+                pass
         if not util.is_field(op.domain) and not op.is_linear:
             # history: the same point *object*, changed in place between two derivative calls on the same operator (what
             # iterative solvers do with their iterate) - against the derivative at a fresh object holding the same values
@@ -259,6 +300,11 @@ def specials(rng):
         yield 'OperatorSum/user-tmp/' + n, lambda sp=sp: odl.OperatorSum(P2(), P3(), tmp_ran=sp.element(), tmp_dom=sp.element())
         yield 'OperatorComp/user-tmp/' + n, lambda sp=sp: odl.OperatorComp(P2(), P3(), sp.element())
         yield 'OperatorRightScalarMult/user-tmp/' + n, lambda sp=sp: odl.operator.operator.OperatorRightScalarMult(P3(), -1.5, sp.element())
+        if not sp.is_real:
+            # inner operators whose derivative objects refer to the point they were given
+            yield 'OperatorRightScalarMult/user-tmp-ComplexModulusSquared/' + n, lambda sp=sp: odl.operator.operator.OperatorRightScalarMult(odl.ComplexModulusSquared(sp), 0.7, sp.element())
+            yield 'OperatorRightScalarMult/user-tmp-ComplexModulus/' + n, lambda sp=sp: odl.operator.operator.OperatorRightScalarMult(odl.ComplexModulus(sp), -1.3, sp.element())
+            yield 'OperatorComp/user-tmp-ComplexModulusSquared/' + n, lambda sp=sp: odl.OperatorComp(odl.ComplexModulusSquared(sp), odl.ScalingOperator(sp, 0.7), sp.element())
         yield 'OperatorLeftVectorMult/nonlinear/' + n, lambda sp=sp: v() * P2()
         yield 'OperatorRightVectorMult/nonlinear/' + n, lambda sp=sp: P3() * v()
         yield 'OperatorVectorSum/nonlinear/' + n, lambda sp=sp: P2() + v()
